@@ -107,3 +107,28 @@ Example C01_py310_example :
   exiting310 P_BlockStack.ex_code 6 = EExit false 9 /\ exiting310 P_BlockStack.ex_code 9 = EExit false 9 /\
   exiting310 P_BlockStack.ex_code 1 = ENone.
 Proof. vm_compute. repeat split. Qed.
+
+(* the block-stack walk of the 3.9/3.10 branch terminates: the fuel [exiting310] gives the model
+   of the `while todo:` loop (4 * units + 8) is never exhausted, for ANY code and position, so the
+   out-of-fuel value cannot make a comparison or a theorem above hold for the wrong reason *)
+Theorem C01_py310_walk_terminates : forall c lasti, exiting310 c lasti <> EFuel.
+Proof. exact exiting310_total. Qed.
+Print Assumptions C01_py310_walk_terminates.
+
+(* completeness of the walk: the "POP_BLOCK ... doesn't appear reachable" InspectionWarning of the
+   3.9/3.10 branch is only given when no path of the walk's control-flow graph (jump edges,
+   SETUP_* -> handler edges, fall-through after every instruction that is not an unconditional
+   transfer; EXTENDED_ARG prefixes skipped) leads from offset 0 to that POP_BLOCK — i.e. for dead
+   code only (the 3.9 compiler leaves such code behind `raise` / `return` at the end of a with
+   body; example [dead_code]).  Together with C01_py310_walk_terminates: on a reachable POP_BLOCK
+   the walk answers (a handler) or crashes (an empty simulated stack: excluded for code whose
+   certificate checks by C01_py310_exiting_block_partial's premise in the case files). *)
+Require Import P_BlockStackC.
+Theorem C01_py310_walk_complete : forall c pop fuel,
+  walk fuel c pop [(0, [])] [] = WNotFound ->
+  forall q, oreach c q -> ~ (bat c (skip_ext c q) = BPopBlock /\ skip_ext c q = pop).
+Proof. exact walk_complete. Qed.
+Print Assumptions C01_py310_walk_complete.
+Example C01_py310_dead_code_example :
+  walk (walk_fuel dead_code) dead_code 2 [(0, [])] [] = WNotFound /\ exiting310 dead_code 6 = EWarn.
+Proof. vm_compute. split; reflexivity. Qed.
